@@ -210,3 +210,93 @@ pub fn next_up(f: f64) -> f64 {
 pub fn next_down(f: f64) -> f64 {
     -next_up(-f)
 }
+
+// ---- where two documents first differ, in comparison order ---------------------------
+
+#[derive(Clone, Debug, PartialEq)]
+pub enum Diff {
+    Same,
+    /// different kinds (rank) at this depth
+    Kind { depth: usize },
+    /// two strings (element values or object keys) differ
+    Str { depth: usize, is_key: bool, proper_prefix: bool },
+    /// two numbers with different values
+    Num { depth: usize, same_f64_image: bool, cross_repr: bool },
+    /// booleans differ (covered by Kind, since true/false have different ranks)
+    /// containers equal on their common part, differing in length
+    Len { depth: usize },
+}
+
+/// numbers that compare Equal but are stored differently (1 / 1.0 / Int64(1), 0 / -0.0)
+pub fn has_equal_but_different_numbers(a: &M, b: &M) -> bool {
+    match (a, b) {
+        (M::Num(x), M::Num(y)) => num_cmp(x, y) == Ordering::Equal && !x.ident_eq(y),
+        (M::Arr(x), M::Arr(y)) => x.iter().zip(y).any(|(p, q)| has_equal_but_different_numbers(p, q)),
+        (M::Obj(x), M::Obj(y)) => x.values().zip(y.values()).any(|(p, q)| has_equal_but_different_numbers(p, q)),
+        _ => false,
+    }
+}
+
+/// is there, before the first difference, a pair 0 / -0.0 (equal values, different f64 image)?
+pub fn first_diff(a: &M, b: &M) -> Diff {
+    fn go(a: &M, b: &M, depth: usize) -> Diff {
+        if rank(a) != rank(b) {
+            return Diff::Kind { depth };
+        }
+        match (a, b) {
+            (M::Str(x), M::Str(y)) => {
+                if x == y {
+                    Diff::Same
+                } else {
+                    let pp = x.as_bytes().starts_with(y.as_bytes()) || y.as_bytes().starts_with(x.as_bytes());
+                    Diff::Str { depth, is_key: false, proper_prefix: pp }
+                }
+            }
+            (M::Num(x), M::Num(y)) => {
+                if num_cmp(x, y) == Ordering::Equal {
+                    Diff::Same
+                } else {
+                    let fx = x.to_lib().as_f64().unwrap();
+                    let fy = y.to_lib().as_f64().unwrap();
+                    Diff::Num {
+                        depth,
+                        same_f64_image: fx.to_bits() == fy.to_bits() || (fx == fy),
+                        cross_repr: std::mem::discriminant(x) != std::mem::discriminant(y),
+                    }
+                }
+            }
+            (M::Arr(x), M::Arr(y)) => {
+                for (p, q) in x.iter().zip(y) {
+                    let d = go(p, q, depth + 1);
+                    if d != Diff::Same {
+                        return d;
+                    }
+                }
+                if x.len() != y.len() {
+                    Diff::Len { depth }
+                } else {
+                    Diff::Same
+                }
+            }
+            (M::Obj(x), M::Obj(y)) => {
+                for ((k1, v1), (k2, v2)) in x.iter().zip(y) {
+                    if k1 != k2 {
+                        let pp = k1.as_bytes().starts_with(k2.as_bytes()) || k2.as_bytes().starts_with(k1.as_bytes());
+                        return Diff::Str { depth: depth + 1, is_key: true, proper_prefix: pp };
+                    }
+                    let d = go(v1, v2, depth + 1);
+                    if d != Diff::Same {
+                        return d;
+                    }
+                }
+                if x.len() != y.len() {
+                    Diff::Len { depth }
+                } else {
+                    Diff::Same
+                }
+            }
+            _ => Diff::Same,
+        }
+    }
+    go(a, b, 0)
+}
